@@ -933,6 +933,7 @@ func Generate(o genOpts) []Input {
 			if alias && !o.Thorough && ci > 0 {
 				continue
 			}
+			aliasQuick := alias && !o.Thorough // same handler build as an earlier route: singles only in the quick tier
 			// (ii) structural mutations, singles and pairs
 			var vs []bodyVariant
 			switch fam {
@@ -981,7 +982,7 @@ func Generate(o genOpts) []Input {
 			}
 			seenBody := map[string]bool{}
 			for _, v := range vs {
-				if seenBody[string(v.Body)] {
+				if seenBody[string(v.Body)] || (aliasQuick && v.Gen == "mut2") {
 					continue
 				}
 				seenBody[string(v.Body)] = true
@@ -1011,7 +1012,7 @@ func Generate(o genOpts) []Input {
 					}
 				}
 			}
-			if ci > 0 && fam != "loki_proto" && fam != "pprof_binary" && fam != "zipkin_ndjson" {
+			if (ci > 0 && fam != "loki_proto" && fam != "pprof_binary" && fam != "zipkin_ndjson") || aliasQuick {
 				continue
 			}
 			// (iii) query parameters: every menu value for every parameter the route reads, singly (quick) and in
@@ -1082,6 +1083,13 @@ func Generate(o genOpts) []Input {
 			}
 		}
 	}
+	// order: seeds, single mutations, parameter / header menus, truncations, short byte strings, and pairs of mutations
+	// last (if the internal deadline ever cuts a run short, what is left unexplored is the tail of the pairs)
+	prio := map[string]int{"seed": 0, "mut1": 1, "params": 2, "headers": 3, "trunc": 4, "bytes3": 5, "mut2": 6}
+	sort.SliceStable(out, func(i, j int) bool { return prio[out[i].Gen] < prio[out[j].Gen] })
+	for i := range out {
+		out[i].ID = i
+	}
 	return out
 }
 
@@ -1137,17 +1145,22 @@ func wellFormed(in *Input) (bool, string) {
 		return false, "unsupported_content_encoding"
 	}
 	jsonDoc := func(b []byte) bool { return json.Valid(b) }
-	ndjsonOK := func(b []byte, allowBlank bool) bool {
+	ndjsonOK := func(b []byte) (bool, string) {
 		for _, l := range bytes.Split(b, []byte("\n")) {
 			l = bytes.TrimSuffix(l, []byte("\r"))
 			if len(l) == 0 {
 				continue
 			}
 			if !json.Valid(l) {
-				return false
+				dec := json.NewDecoder(bytes.NewReader(l))
+				var v any
+				if dec.Decode(&v) == nil {
+					return false, "trailing_data_after_json_value_in_line"
+				}
+				return false, "invalid_json_line"
 			}
 		}
-		return true
+		return true, ""
 	}
 	unsnap := func(b []byte) []byte { // writer/controller withUnsnappyRequest: block format, raw body on failure
 		if d, err := snappy.Decode(nil, b); err == nil {
@@ -1158,11 +1171,17 @@ func wellFormed(in *Input) (bool, string) {
 	switch in.Family {
 	case "loki_json", "dd_logs", "dd_series", "zipkin_json":
 		if !jsonDoc(body) {
+			// name the common special case: one complete JSON document followed by more bytes
+			dec := json.NewDecoder(bytes.NewReader(body))
+			var v any
+			if dec.Decode(&v) == nil {
+				return false, "trailing_data_after_json_document"
+			}
 			return false, "invalid_json"
 		}
 	case "zipkin_ndjson", "dd_cf", "elastic_bulk":
-		if !ndjsonOK(body, true) {
-			return false, "invalid_json_line"
+		if ok, why := ndjsonOK(body); !ok {
+			return false, why
 		}
 	case "loki_proto":
 		if proto.Unmarshal(unsnap(body), &logproto.PushRequest{}) != nil {
